@@ -156,6 +156,7 @@ const (
 	verifTickCliTimeoutResolved        // Ctx.fireTimeout has resolved the Ctx and is about to cancel the stream
 	verifTickSrvReqTimer               // server stream loop: the request timer has fired
 	verifTickSrvIdle                   // server: the idle timer has fired (closeIdleConn has sent its GOAWAY and closed closer)
+	verifTickSrvOpening                // server stream loop: about to open a stream for a HEADERS frame (before it re-checks closing)
 	verifTickCount
 )
 
@@ -179,6 +180,7 @@ const (
 	VerifTickCliTimeoutResolved = verifTickCliTimeoutResolved
 	VerifTickSrvReqTimer        = verifTickSrvReqTimer
 	VerifTickSrvIdle            = verifTickSrvIdle
+	VerifTickSrvOpening         = verifTickSrvOpening
 	VerifTickCount              = verifTickCount
 )
 
